@@ -134,9 +134,8 @@ def r12_1(ctx: Ctx, closure: Dict[str, Func]) -> None:
     close = shared.szf(ctx, "close")
     for c in q.calls(close):
         if attr_tail(c) == "_write_flush":
-            facts = q.facts_at(close, c)
-            good = any(pol and isinstance(cond, ast.Compare) and isinstance(cond.ops[0], ast.In) and isinstance(cond.left, ast.Constant)
-                       and cond.left.value in ("w", "a", "x") and norm(cond.comparators[0]).endswith("mode") for cond, pol in facts)
+            modes = shared.mode_guard_consts(close, c)
+            good = bool(modes) and modes <= {"w", "a", "x"}
             ctx.check(good, "R12.1", close, c, "close(): _write_flush only under a write-mode test",
                       "close() calls _write_flush without a write-mode guard: closing a read session would rewrite the archive")
     init = shared.szf(ctx, "__init__")
